@@ -67,7 +67,7 @@ def main():
                     print(sid, "NEEDS-REBASE")
                     res.append((sid, "needs-rebase"))
                     continue
-        rc, out = sh("TRY_LINES=3 %s/tools/try_seed.sh %s %s quick" % (ROOT, patch, m["property"]), cwd=ROOT)
+        rc, out = sh("TRY_LINES=3 %s/tools/try_seed.sh %s %s quick" % (ROOT, patch, m.get("check_property", m["property"])), cwd=ROOT)
         mm = re.search(r"exit=(\d+)", out)
         m["check_exit"] = int(mm.group(1)) if mm else None
         m["check_detects"] = bool(mm and mm.group(1) == "1")
